@@ -30,14 +30,14 @@ Theorem C07_wait_body : forall tmo x, wfw x ->
 Proof. exact wt_entry_spec. Qed.
 Print Assumptions C07_wait_body.
 Theorem C07_masks : forall x, Z.land x VMASK = fv x * 4 /\ Z.land x HW = fw x /\ Z.land x HN = fn x * 2.
-Proof. intros x. split; [apply land_vmask|split; [apply land_hw|apply land_hn]]. Qed.
+Proof. exact masks_all. Qed.
 Print Assumptions C07_masks.
 
 (* ---- dispatch_group_wait ---- *)
 (* the 32-bit generation is the number of count->0 transitions mod 2^32, in every reachable state *)
 Theorem C07_generation_counts_zero_transitions : forall s, reach s ->
   wfw (word s) /\ 0 <= gfull s /\ fg (word s) = gfull s mod 4294967296.
-Proof. intros s R. apply (inv_reach s R). Qed.
+Proof. exact generation_counts. Qed.
 Print Assumptions C07_generation_counts_zero_transitions.
 (* wait returns 0 only if the count was zero at some state during the call: wz t is set to [count = 0] when the call
    begins, or-ed with [count = 0] at every read of the word by the waiter, and set by the leave that brings the count to
@@ -45,6 +45,15 @@ Print Assumptions C07_generation_counts_zero_transitions.
 Theorem C07_wait_zero_sound : forall s t, reach s -> pcs s t = PRetV 0 -> wz s t = true.
 Proof. exact wait_zero_sound. Qed.
 Print Assumptions C07_wait_zero_sound.
+(* what the flag means: reset to [count = 0] by the call, it only turns true in a step next to a state with count = 0 *)
+Theorem C07_wait_zero_flag_reset : forall s t e s',
+  pcs s t = PIdle -> ev_kind e DVU_CALL = true -> ea e = OP_WAIT -> gstep s t e = Some s' -> wz s' t = vzero (word s).
+Proof. exact wz_reset. Qed.
+Print Assumptions C07_wait_zero_flag_reset.
+Theorem C07_wait_zero_flag_meaning : forall s t e s' u, reach s -> gstep s t e = Some s' -> wz s' u = true ->
+  wz s u = true \/ vzero (word s) = true \/ vzero (word s') = true.
+Proof. exact wz_meaning. Qed.
+Print Assumptions C07_wait_zero_flag_meaning.
 Theorem C07_wait_zero_return_point : forall s t e s' v,
   pcs s t = PRetV v -> gstep s t e = Some s' -> ea e = 0 -> v = 0.
 Proof. exact wait_ret_zero_pc. Qed.
@@ -65,7 +74,7 @@ Print Assumptions C07_wait_nonzero_only_by_timeout.
 (* every notification is submitted at most once and only if it was registered *)
 Theorem C07_notify_exactly_once : forall s i, reach s ->
   0 <= fcnt s i <= 1 /\ (fcnt s i = 1 -> 0 <= i < nreg s).
-Proof. intros s i R. apply exactly_once. exact R. Qed.
+Proof. exact (fun s i R => exactly_once s i R). Qed.
 Print Assumptions C07_notify_exactly_once.
 (* every registered notification is in exactly one place: still on the list, detached by one thread that is in its
    submit loop, or submitted once *)
@@ -84,51 +93,60 @@ Print Assumptions C07_notify_unique_detacher.
    the count was zero at some state since it was registered).  The faithful model REFUTES it, and so does the library
    (harness/c07_early.c, both variants): a dispatch_group_leave (or a registering _dispatch_group_notify) that observed the
    count at zero detaches the list later, and by then the list may hold notifications registered after a new enter. *)
-Definition ev k o off sz a b ok := mkEv k o 1 off sz a b ok.
-Definition early_schedule : list (Z * event) :=
-  [ (1, ev 100 0 0 0 1 0 1); (1, ev 7 2 0 4 0 4 1); (1, ev 101 0 0 0 0 0 1);                     (* enter *)
-    (1, ev 100 0 0 0 4 0 1); (1, ev 3 3 16 8 0 1000 1); (1, ev 2 0 8 8 0 1000 1);                  (* notify A ... *)
-    (1, ev 1 0 0 8 4294967292 4294967292 1); (1, ev 5 3 0 8 4294967292 4294967294 1); (1, ev 101 0 0 0 0 0 1);
-    (2, ev 100 0 0 0 2 0 1); (2, ev 6 3 0 8 4294967294 4 1);                                       (* last leave: count -> 0 *)
-    (1, ev 100 0 0 0 1 0 1); (1, ev 7 2 0 4 2 4 1); (1, ev 101 0 0 0 0 0 1);                      (* enter again *)
-    (1, ev 100 0 0 0 4 1 1); (1, ev 3 3 16 8 1000 2000 1); (1, ev 101 0 0 0 0 0 1);                (* notify B behind A *)
-    (2, ev 4 0 0 8 8589934590 4294967296 0); (2, ev 4 0 0 8 8589934590 8589934588 1);               (* leaver clears NOTIFS *)
-    (2, ev 1 2 8 8 1000 1000 1); (2, ev 2 0 8 8 0 0 1); (2, ev 3 3 16 8 2000 0 1);                   (* detaches A and B *)
-    (2, ev 3 3 24 8 0 1000 0); (2, ev 3 3 24 8 1000 2000 1) ].                                       (* submits both *)
 Theorem C07_notify_not_early_refuted :
   exists s, reach s /\ early s = true /\ outst s = 1 /\ fcnt s 1 = 1 /\ (fv (word s) =? 0) = false.
-Proof.
-  assert (H : match grun init_state early_schedule with
-              | Some s => early s = true /\ outst s = 1 /\ fcnt s 1 = 1 /\ (fv (word s) =? 0) = false
-              | None => False end) by (vm_compute; repeat split).
-  destruct (grun init_state early_schedule) as [s|] eqn:E; [|destruct H].
-  exists s. split; [|exact H].
-  apply (grun_reach early_schedule init_state s); [apply reach_init; reflexivity| |exact E].
-  repeat constructor.
-Qed.
+Proof. exact not_early_refuted. Qed.
 Print Assumptions C07_notify_not_early_refuted.
 
-(* C07_none_left_behind_partial.  Full statement (not proved here): for every state reachable by steps that keep every
-   wait `fresh` (Group.reach_nw: fewer than 2^32 generations elapse during one wait), if the count is zero and no
-   leave / notify / wake is in flight then no thread sleeps in futex_wait and every registered notification has been
-   submitted.  Proved part: the notification half for states with no call in flight at all — the list is empty with
-   HAS_NOTIFS clear or non-empty with HAS_NOTIFS set, and nobody holds detached continuations.  Missing: the invariant
-   "value = 0 and a flag set => some leaver is in its clearing loop" and the sleeper invariant (sketched in the report). *)
-Theorem C07_none_left_behind_partial : forall s, reach s -> (forall t, pcs s t = PIdle) ->
+(* ---- nobody is left behind ---- *)
+(* the value field is the number of outstanding enters (negated, mod 2^30): value = 0 iff every enter was matched *)
+Theorem C07_value_is_outstanding : forall s, reach_nw s ->
+  0 <= outst s < 1073741824 /\ fv (word s) = (1073741824 - outst s) mod 1073741824.
+Proof. exact value_is_outstanding. Qed.
+Print Assumptions C07_value_is_outstanding.
+(* a thread asleep in futex_wait on dg_gen: in the current generation HAS_WAITERS is set and the count is not zero (so the
+   leave that brings it to zero sees the bit); in an older generation a thread that owes the futex wake exists: one past
+   its clearing CAS whose copy of the word has HAS_WAITERS (or at the wake call itself), or the bit is still in the word
+   and a thread in the clearing loop of dispatch_group_leave holds it *)
+Theorem C07_sleeper_has_waker : forall s t, reach_nw s -> slp s t = Sleeping ->
+  (gsnap s t = gfull s /\ fw (word s) = 1 /\ fv (word s) <> 0) \/
+  (gsnap s t < gfull s /\
+   ((exists u, match pcs s u with
+               | PSnapHead _ st | PSnapStore _ st | PSnapTail _ st | PFire _ st => fw st = 1
+               | PWakeFutex _ => True | _ => False end) \/
+    (fw (word s) = 1 /\ exists u, match pcs s u with PLvLoop _ old => fw old = 1 | _ => False end))).
+Proof. exact sleeper_has_waker. Qed.
+Print Assumptions C07_sleeper_has_waker.
+(* C07_none_left_behind, full strength.  Hypothesis (explicit): the state is reached by steps that keep every wait fresh
+   (Group.reach_nw: fewer than 2^32 generations elapse between a waiter's read of the word and its futex wait — the ABA the
+   32-bit generation admits).  No reachable state with value = 0, no leave / notify / wake in flight (quiet: only idle
+   threads, enters and waiters), and either a sleeping waiter or a registered notification that was not submitted. *)
+Theorem C07_none_left_behind : forall s, reach_nw s -> fv (word s) = 0 -> (forall u, quiet (pcs s u) = true) ->
+  ~ (exists t, slp s t = Sleeping /\ gsnap s t <> gfull s) /\ ~ (exists i, 0 <= i < nreg s /\ fcnt s i <> 1).
+Proof. exact none_left_behind_neg. Qed.
+Print Assumptions C07_none_left_behind.
+(* ... in positive form, with what the quiescent state looks like: nobody sleeps on the group at all, the word is
+   gen|0|0|0, the list is empty, nothing is held, every registered notification was submitted once, every enter matched *)
+Theorem C07_quiescent_state : forall s, reach_nw s -> fv (word s) = 0 -> (forall u, quiet (pcs s u) = true) ->
+  (forall t, slp s t <> Sleeping) /\ fn (word s) = 0 /\ fw (word s) = 0 /\ nq s = [] /\ (forall t, held s t = []) /\
+  (forall i, 0 <= i < nreg s -> fcnt s i = 1) /\ outst s = 0.
+Proof. exact none_left_behind. Qed.
+Print Assumptions C07_quiescent_state.
+(* without the value = 0 premise, when no call is in flight at all: the list is empty with HAS_NOTIFS clear, or non-empty
+   with the bit set (waiting for the count to reach zero) *)
+Theorem C07_idle_list_state : forall s, reach s -> (forall t, pcs s t = PIdle) ->
   ((nq s = [] /\ fn (word s) = 0) \/ (nq s <> [] /\ fn (word s) = 1)) /\ forall t, held s t = [].
 Proof. exact idle_list_state. Qed.
-Print Assumptions C07_none_left_behind_partial.
-(* the freshness hypothesis is satisfiable: the initial state is fresh and so is every state without waiter *)
-Theorem C07_fresh_satisfiable : fresh init_state /\ reach_nw init_state.
-Proof. split; [intros t H; discriminate H|apply reach_init; reflexivity]. Qed.
+Print Assumptions C07_idle_list_state.
+(* the freshness hypothesis is satisfiable: every run of fewer than 2^32 generations is fresh *)
+Theorem C07_fresh_satisfiable : forall s, reach s -> gfull s < 4294967296 -> reach_nw s.
+Proof. exact small_runs_are_fresh. Qed.
 Print Assumptions C07_fresh_satisfiable.
 
 (* reuse: the invariants are about every reachable state, so they hold again in every generation *)
 Theorem C07_reusable : forall s t e s', reach s -> valid_tid t -> gstep s t e = Some s' ->
   reach s' /\ Inv1 s' /\ Inv2 s'.
-Proof.
-  intros s t e s' R Vt Hs. assert (R' : reach s') by (eapply reach_gstep; eauto). split; [exact R'|apply inv_reach; exact R'].
-Qed.
+Proof. exact reusable. Qed.
 Print Assumptions C07_reusable.
 
 (* ---- ties ---- *)
@@ -137,10 +155,7 @@ Theorem C07_sites_match_source :
   canon model_sites_wait = canon group_wait_sites /\ canon model_sites_wait_slow = canon group_wait_slow_sites /\
   canon model_sites_notify = canon group_notify_sites /\ canon model_sites_wake = canon group_wake_sites /\
   group_wait_loop_order = Relaxed /\ group_notify_loop_order = Release.
-Proof.
-  split; [apply sites_enter|]. split; [apply sites_leave|]. split; [apply sites_wait|]. split; [apply sites_wait_slow|].
-  split; [apply sites_notify|]. split; [apply sites_wake|]. split; reflexivity.
-Qed.
+Proof. exact sites_all. Qed.
 Print Assumptions C07_sites_match_source.
 Theorem C07_model_uses_thread_automaton : forall s t e s',
   gstep s t e = Some s' -> tstep (pcs s t) e = Some (pcs s' t).
@@ -149,13 +164,12 @@ Print Assumptions C07_model_uses_thread_automaton.
 
 (* non-vacuity: thread 1 enters, thread 3 waits forever (sets HAS_WAITERS, sleeps on generation 0), thread 2 performs the
    last leave (carry: generation 1), clears the bit, wakes; thread 3 reloads the generation and returns 0 *)
-Definition demo_schedule : list (Z * event) :=
-  [ (1, ev 100 0 0 0 1 0 1); (1, ev 7 2 0 4 0 4 1); (1, ev 101 0 0 0 0 0 1);
-    (3, ev 100 0 0 0 3 18446744073709551615 1); (3, ev 1 0 0 8 4294967292 4294967292 1);
-    (3, ev 5 0 0 8 4294967292 4294967293 1); (3, ev 32 0 4 0 0 0 1);
-    (2, ev 100 0 0 0 2 0 1); (2, ev 6 3 0 8 4294967293 4 1); (2, ev 4 0 0 8 4294967297 4294967296 1);
-    (2, ev 34 0 4 0 2147483647 0 1); (2, ev 101 0 0 0 0 0 1);
-    (3, ev 33 0 4 0 0 0 1); (3, ev 1 2 4 4 1 1 1); (3, ev 101 0 0 0 0 0 1) ].
+(* the demo run below is a fresh run: its sleeping waiter is covered by C07_sleeper_has_waker / C07_none_left_behind *)
+Theorem C07_demo_is_fresh :
+  match grun init_state (firstn 7 demo_schedule) with
+  | Some s => reach_nw s /\ slp s 3 = Sleeping /\ gsnap s 3 = gfull s | None => False end.
+Proof. exact demo_is_fresh. Qed.
+Print Assumptions C07_demo_is_fresh.
 Example C07_nonvacuous :
   match grun init_state (firstn 7 demo_schedule) with
   | Some s => slp s 3 = Sleeping /\ word s = 4294967293 /\ outst s = 1 /\ wz s 3 = false | None => False end /\
